@@ -1006,3 +1006,11 @@ V('c16-duplicate-guard-ignores-source', 'C16', 'C16.GUARD', LSF,
   "            and self.last_addrs == addrs\n", "", names=['_process_datagram_at_time'])
 V('c16-source-not-remembered', 'C16', 'C16.GUARD', LSF,
   "        self.last_addrs = addrs\n", "", names=['_process_datagram_at_time'])
+
+# ---------------------------------------------------------------- C15.ESCAPE unbound local after a swallowed exception
+V('c15-handler-falls-through-unbound', 'C15', 'C15.ESCAPE', CORE,
+  "            self.log_warning_once(\"Dropping %r as it contains a name part that is too long\", out)\n            return\n",
+  "            self.log_warning_once(\"Dropping %r as it contains a name part that is too long\", out)\n", names=['async_send'])
+V('c15-twin-handler-binds-default', 'C15', 'C15.ESCAPE', CORE,
+  "            self.log_warning_once(\"Dropping %r as it contains a name part that is too long\", out)\n            return\n",
+  "            self.log_warning_once(\"Dropping %r as it contains a name part that is too long\", out)\n            packets = []\n", expect='silent')
